@@ -16,6 +16,7 @@ import (
 	"io"
 	"math/big"
 	"os"
+	"regexp"
 	"sync"
 	"time"
 
@@ -27,6 +28,7 @@ import (
 	"github.com/dominant-strategies/go-quai/ethdb"
 	"github.com/dominant-strategies/go-quai/log"
 	"github.com/dominant-strategies/go-quai/params"
+	"github.com/dominant-strategies/go-quai/trie"
 	"github.com/sirupsen/logrus"
 	orderedmap "github.com/wk8/go-ordered-map/v2"
 	"google.golang.org/protobuf/proto"
@@ -377,6 +379,12 @@ type VBuildOpts struct {
 	Salt         int64                      // distinguishes sibling blocks
 	PreSeal      func(wo *types.WorkObject) // evil-miner hook: mutate the assembled block before sealing
 	NoReseal     bool
+	// ExtraTxs: transactions a FOREIGN miner puts into the block although this node's own worker
+	// would never select them (e.g. a Qi transaction spending an output created earlier in the same
+	// block). They are inserted after the inbound ETXs / Qi transactions; every declared result of
+	// the header is then recomputed by running the real StateProcessor.Process on the candidate
+	// (vForeignFix), so the block is valid iff Process accepts its body.
+	ExtraTxs []*types.Transaction
 }
 
 // Build assembles (with the node's own worker), seals and wire-encodes a block on top of the
@@ -389,7 +397,67 @@ func (n *VNode) Build(o VBuildOpts) (*types.WorkObject, error) {
 	if n.Cfg.Levels == 1 {
 		o.Order = 2
 	}
+	if len(o.ExtraTxs) > 0 {
+		if err := n.vForeignFix(comb, o.ExtraTxs); err != nil {
+			return nil, fmt.Errorf("foreign assembly: %w", err)
+		}
+	}
 	return n.Seal(comb, o.Order, o.Salt)
+}
+
+var vRemoteLocal = regexp.MustCompile(`^invalid (avgTxFees|totalFees) used \(remote: (\d+) local: (\d+)\)`)
+
+// vForeignFix adds extra transactions to a worker-assembled block and recomputes the declared
+// results from the outputs of the real Process (fee totals are taken from Process' own refusal
+// message, which names the value it derived).
+func (n *VNode) vForeignFix(comb *types.WorkObject, extra []*types.Transaction) error {
+	txs := comb.Body().Transactions()
+	pos := len(txs)
+	for i, t := range txs {
+		if t.Type() == types.QuaiTxType {
+			pos = i
+			break
+		}
+	}
+	newTxs := append(append(append(types.Transactions{}, txs[:pos]...), extra...), txs[pos:]...)
+	comb.Body().SetTransactions(newTxs)
+	comb.Header().SetTxHash(types.DeriveSha(newTxs, trie.NewStackTrie(nil)))
+	for iter := 0; iter < 8; iter++ {
+		comb.WorkObjectHeader().SetHeaderHash(comb.Header().Hash())
+		blk, err := VRoundTrip(comb, VZoneLoc)
+		if err != nil {
+			return err
+		}
+		batch := n.DB[2].NewBatch()
+		receipts, etxs, _, statedb, usedGas, usedState, _, multiSet, _, perr := n.Sl[2].hc.bc.processor.Process(blk, batch)
+		batch.Reset()
+		if perr != nil {
+			if m := vRemoteLocal.FindStringSubmatch(perr.Error()); m != nil {
+				v, _ := new(big.Int).SetString(m[3], 10)
+				if m[1] == "avgTxFees" {
+					comb.Header().SetAvgTxFees(v)
+				} else {
+					comb.Header().SetTotalFees(v)
+				}
+				continue
+			}
+			return perr
+		}
+		h := comb.Header()
+		h.SetGasUsed(usedGas)
+		h.SetStateUsed(usedState)
+		h.SetReceiptHash(types.DeriveSha(receipts, trie.NewStackTrie(nil)))
+		h.SetEVMRoot(statedb.IntermediateRoot(true))
+		h.SetQuaiStateSize(statedb.GetQuaiTrieSize())
+		h.SetUTXORoot(multiSet.Hash())
+		h.SetEtxSetRoot(statedb.ETXRoot())
+		out := types.Transactions(etxs)
+		comb.Body().SetOutboundEtxs(out)
+		h.SetOutboundEtxHash(types.DeriveSha(out, trie.NewStackTrie(nil)))
+		comb.WorkObjectHeader().SetHeaderHash(h.Hash())
+		return nil
+	}
+	return errors.New("declared fee totals did not converge")
 }
 
 // buildUnsealed: the worker-assembled, harness-finished block before a pow hash is chosen.
